@@ -168,6 +168,12 @@ PRE_WAIT = des("p3-preempted-while-awaiting", "mutex", 3, procs=3, prios="0,2,1"
                script0="racq0,waitp1,rrel0", script1="hold1,return", script2="hold1,rpre0,hold1")
 
 
+# every way in which a holder's life can end while it holds (exit, return, stopped by another, stopping itself)
+END_HOLDING = des("p3-holder-ends-every-way", "mutex", 3, procs=3, prios="0,1,2", budget=4, res=1,
+                  ops="racq0,rrel0,rpre0,hold0,hold1,stopself,exit,return,stop0,stop2,int0",
+                  script0="racq0,hold1,stopself", script1="hold0,racq0,hold1,rrel0", script2="hold1,rpre0,stopself")
+
+
 def c05_jobs(tier):
     ops = "racq0,rrel0,rpre0,hold0,hold1,tadd1,tadd1u,int0,int1,int2,stop1,exit,prio0.2,prio2.0"
     if tier == "quick":
@@ -188,14 +194,14 @@ def c05_jobs(tier):
             # a waiter that loses the hand-over race to a re-acquiring releaser twice in a row
             des("p2-hog", "mutex", 3, procs=2, prios="0,0", budget=8, res=1, ops=HOG_OPS,
                 script0="racq0,hold1,rrel0,racq0,hold1,rrel0,racq0,hold1", script1="racq0,hold1,rrel0"),
-            PRE_INT, PRE_WAIT,
+            PRE_INT, PRE_WAIT, END_HOLDING,
         ]
     j1 = des("p3-loop", "mutex", 4, 1500, procs=3, prios="0,1,2", budget=5, res=1, ops=ops,
              script="racq0,hold1,rrel0,racq0,hold1")
     j2 = des("p3-eqprio", "mutex", 4, 1500, procs=3, prios="0,0,0", budget=5, res=1, ops=ops,
              script="racq0,hold1,rrel0,racq0,hold1")
     return [
-        deep(j1, 6), deep(j2, 6), PRE_INT, PRE_WAIT,
+        deep(j1, 6), deep(j2, 6), PRE_INT, PRE_WAIT, END_HOLDING,
         des("p3-loop", "mutex", 4, 1500, procs=3, prios="0,1,2", budget=5, res=1, ops=ops,
             script="racq0,hold1,rrel0,racq0,hold1"),
         des("p3-eqprio", "mutex", 4, 1500, procs=3, prios="0,0,0", budget=5, res=1, ops=ops,
@@ -903,6 +909,9 @@ def c20_jobs(tier):
             # chunks of 256 KiB and 1 MiB (4096 objects of 64 bytes, 256 of 4096 bytes): every object of a chunk is used
             j("ramp-64x4096", 0, objsz=64, objnum=4096, mode="ramp", target=9000, nochoice=1),
             j("ramp-4096x256", 0, objsz=4096, objnum=256, mode="ramp", target=600, nochoice=1),
+            # a chunk beyond 4 GiB (4100 objects of 1 MiB; only the ends of each object are touched): offsets need 64 bits
+            dict(j("ramp-1MiBx4100", 0, objsz=1048576, objnum=4100, mode="ramp", target=4200, nochoice=1, sparse=1),
+                 run_timeout=120, workers=1),
             j("seq-4104", objsz=4104, objnum=1, mode="seq", depth=D - 1),
             j("ramp66-4096", 1 if tier == "quick" else 2, objsz=4096, objnum=1, mode="ramp", target=66),
             j("ramp66-2048", 1, objsz=2048, objnum=2, mode="ramp", target=132),
